@@ -859,16 +859,18 @@ func (g *gen) writeBuiltinNumType(b *buffer, recv *a.Expr, method t.ID, args []*
 		return nil
 
 	case t.IDHighBits:
-		// "recv.high_bits(n:etc)" in C is "((recv) >> (8*sizeof(recv) - (n)))".
-		b.writes("((")
+		// "recv.high_bits(n:etc)" in C is "(((recv) >> 1u) >> (W - 1u - (n)))",
+		// for W = 8*sizeof(recv). It is not "((recv) >> (W - (n)))", as n can
+		// be zero and shifting by the full width W is undefined behavior.
+		b.writes("(((")
 		if err := g.writeExpr(b, recv, false, depth); err != nil {
 			return err
 		}
-		b.writes(") >> (")
+		b.writes(") >> 1u) >> (")
 		if sz, err := g.sizeof(recv.MType()); err != nil {
 			return err
 		} else {
-			b.printf("%du", 8*sz)
+			b.printf("%du", (8*sz)-1)
 		}
 		b.writes(" - ")
 		if err := g.writeExpr(b, args[0].AsArg().Value(), false, depth); err != nil {
